@@ -53,7 +53,7 @@ func runDkgStep(r *prng.R, s *out.Sink, tier string) {
 		t := 2 + r.Intn(n-1)
 		// one run in four fault-free, one in four with exactly one substituted share / commitment / key and nothing else
 		// wrong (so that the run goes all the way to the verdict), the rest a random mix
-		scenario := []string{"honest", "one-share", "mix", "mix", "honest", "one-reveal", "mix", "one-commit", "honest", "one-share", "mix", "mix"}[(i/2)%12] // (i/2: every scenario with both backends)
+		scenario := []string{"honest", "one-share", "mix", "bad-point", "honest", "one-reveal", "mix", "one-commit", "honest", "one-share", "mix", "mix"}[(i/2)%12] // (i/2: every scenario with both backends)
 		if scenario == "one-share" && n == t && n < 5 {
 			n++ // the cross-check needs t < n
 		}
@@ -117,7 +117,16 @@ func (w *stepWorld) route(from uint16, msg []byte, bcast bool, to uint16, partie
 
 func dkgStepRun(kind string, r *prng.R, s *out.Sink, n, t, msgLen int, scenario string) bool {
 	honest := scenario != "mix"
+	// bad-point: one participant commits to, and then reveals, a string of exactly the size of a key that is not a point of
+	// the group (each of the two messages is delivered before the genuine one, which is then ignored: first value wins).
+	// The key is refused on arrival; the run must end with an error, never with a panic.
+	var badPointFrom uint16
+	badPoint := r.Bytes(128)
+	if kind == "ps" && scenario == "bad-point" {
+		scenario = "one-reveal"
+	}
 	oneKind := map[string]byte{"one-share": 1, "one-commit": 2, "one-reveal": 3}[scenario]
+	_ = badPointFrom
 	oneDone := false
 	dkgStepInst++
 	inst := dkgStepInst
@@ -322,13 +331,16 @@ func dkgStepRun(kind string, r *prng.R, s *out.Sink, n, t, msgLen int, scenario 
 			if what == "substituted" && (kindName == "commit" || kindName == "reveal") {
 				mismatchFrom = m.from
 			}
-			ev, ok := waitEvent()
-			if !ok {
-				return false
-			}
-			logWake(ev, takeOut())
-			if ev != "park" {
-				finished = true
+			// (a stored value wakes the waiting loop. Should the wake-up not come — a changed OnMsg that stored or refused
+			// otherwise than the bookkeeping here expects — the run goes on: the monitors below judge how it ends.)
+			select {
+			case ev := <-w.events:
+				logWake(ev, takeOut())
+				if ev != "park" {
+					finished = true
+				}
+			case <-time.After(3 * time.Second):
+				s.Count("dkg/missing-wake")
 			}
 		} else if !finished {
 			// nothing new was stored, so the waiting loop is not signalled — by the code as it stands. Should it wake up all
@@ -427,6 +439,31 @@ func dkgStepRun(kind string, r *prng.R, s *out.Sink, n, t, msgLen int, scenario 
 			}
 		}
 		okRun := true
+		if scenario == "bad-point" && len(m.data) > 0 && (m.data[0] == 2 || m.data[0] == 3) && (badPointFrom == 0 || badPointFrom == m.from) && !(m.data[0] == 3 && badPointFrom == 0) {
+			badPointFrom = m.from
+			sub := m
+			if m.data[0] == 2 {
+				h := sha256.Sum256(badPoint)
+				sub.data = append([]byte{2}, h[:]...)
+			} else {
+				sub.data = append([]byte{3}, badPoint...)
+			}
+			wf := false
+			if _, err := bls.VerifCurve().NewG2FromBytes(badPoint); err == nil {
+				wf = true
+			}
+			s.Count("dkg/bad-point-message")
+			okRun = deliver(sub, "substituted", wf || m.data[0] == 2)
+			if okRun && !finished {
+				okRun = deliver(m, "as-sent", true)
+			}
+			deliveredLog = append(deliveredLog, m)
+			if !okRun {
+				finishRun()
+				return false
+			}
+			continue
+		}
 		switch choice {
 		case 1: // a duplicate of something delivered earlier, then the message
 			if len(deliveredLog) > 0 {
@@ -540,6 +577,10 @@ func dkgStepRun(kind string, r *prng.R, s *out.Sink, n, t, msgLen int, scenario 
 	}
 	if vres != nil && tamperedFirst && t < n && mismatchFrom == 0 {
 		s.Violate("C05", "the party under test completed although a share off its dealer's polynomial was the first to arrive (the keys cannot lie on one polynomial)", desc+"\n"+strings.Join(hist, "\n"))
+	}
+	if vpanicked {
+		s.Violate("C10", fmt.Sprintf("KeyGen of party %d panicked on the messages of its peers (%s backend, scenario %s)", V, kind, scenario), desc+"\n"+strings.Join(hist, "\n"))
+		s.Violate("C11", fmt.Sprintf("KeyGen of party %d panicked (%s backend, scenario %s)", V, kind, scenario), desc+"\n"+strings.Join(hist, "\n"))
 	}
 	// the all-subsets cross-check of the real KeyGen (C18): an off-polynomial key is detected whichever party it belongs to,
 	// keys on one polynomial are always accepted — whatever the party identifiers are
